@@ -65,17 +65,29 @@ def run_sched(tier, seed, replay=None):
         rp = json.load(open(replay))
         ensure_sources(rp.get("tier", tier))
         build_harness([rp["bin"]])
-        jobs.append((rp["bin"], [rp["case"]] + ([str(rp["preset"])] if rp.get("preset") is not None else [])))
+        jobs.append((rp["bin"], [rp["case"]] + ([str(rp["preset"])] if rp.get("preset") is not None else [])) + (("rf",) if rp.get("rf") else ()))
     else:
         build_harness(bins_for(tier))
         jobs = [(b, []) for b in bins_for(tier)]
+        # a second, short pass per bin in a fresh process: the real pools first (1 thread first),
+        # on the first independent pair of the bin ("rf" = rayon first)
+        sys.path.insert(0, os.path.join(HARNESS, "tools"))
+        import gen_sched
+        ks = gen_sched.kinds()
+        for b in bins_for(tier)[:16]:
+            src = open(os.path.join(HARNESS, "src", "bin", b + ".rs")).read()
+            for m in re.finditer(r'sched_case!\(out, "(p\d+)", presets, pools, \d+; [SP]\(K(\d+)\), [SP]\(K(\d+)\)\);', src):
+                if not gen_sched.conflict(ks[int(m.group(2))], ks[int(m.group(3))]):
+                    jobs.append((b, [m.group(1)], "rf"))
+                    break
 
     def one(job):
-        b, extra = job
-        out = os.path.join(d, b + ".ndjson")
+        b, extra = job[0], job[1]
+        rf = len(job) > 2
+        out = os.path.join(d, b + ("-rf" if rf else "") + ".ndjson")
         hang = False
         try:
-            p = sh([bin_path(b), out] + extra, timeout=600, check=False)
+            p = sh([bin_path(b), out] + extra, timeout=600, check=False, env={"VERIF_SCHED_FIRST": "1"} if rf else None)
             rc = p.returncode
         except subprocess.TimeoutExpired:
             rc, hang = -999, True
@@ -105,7 +117,7 @@ def run_sched(tier, seed, replay=None):
             if sig in seen:
                 continue
             seen.add(sig)
-            fails.append({"prop": prop, "name": nm, "line": line, "bin": b, "hdr": h, "trace": out})
+            fails.append({"prop": prop, "name": nm + (" (real pools first, 1 thread first, in a fresh process)" if rf else ""), "line": line, "bin": b, "hdr": h, "trace": out, "rf": rf})
         if crashed:
             which = "did not terminate (watchdog 600 s)" if hang else "process crashed rc=%s" % rc
             # which case was it?  The bin buffers its output, so the header of the run in progress is
@@ -151,7 +163,7 @@ def run_sched(tier, seed, replay=None):
             rp = os.path.join(WORK, "replay", "%s-%s-%s-p%s.json" % (f["prop"], f["bin"], h.get("case"), h.get("preset")))
             os.makedirs(os.path.dirname(rp), exist_ok=True)
             json.dump({"bin": f["bin"], "case": h.get("case"), "preset": h.get("preset"), "tier": tier,
-                       "names": h.get("names"), "mode": h.get("mode"), "choices": h.get("choices"),
+                       "names": h.get("names"), "mode": h.get("mode"), "choices": h.get("choices"), "rf": bool(f.get("rf")),
                        "check": f["name"]}, open(rp, "w"))
             f["replay"] = rp
             fails.append(f)
